@@ -222,6 +222,29 @@ first — the k-th result is `collectionGet` of the k-th script. -/
 def collectionGetSeq (md5 : Str → Str) (history : List Script) : List Result :=
   history.map (collectionGet md5)
 
+/-! ### answers that arrive together
+
+When several remotes answer at (nearly) the same moment, the order in which their closures reach
+the hash test, the `first <- c` send and `errchan` is up to the scheduler: any permutation of the
+answering remotes can be the completion order. The closure shares nothing with the other closures
+or with the caller except the one-slot channel `first` (which carries the *already rewritten*
+collection), so the set of possible results is the set of `collectionGet` results over the
+permutations of `order`. -/
+
+/-- all ways to insert `a` into a list -/
+def insertions {α : Type} (a : α) : List α → List (List α)
+  | [] => [[a]]
+  | b :: bs => (a :: b :: bs) :: (insertions a bs).map (b :: ·)
+
+/-- all permutations of a list (n! of them, with repetitions if elements repeat) -/
+def perms {α : Type} : List α → List (List α)
+  | [] => [[]]
+  | a :: as => (perms as).flatMap (insertions a)
+
+/-- every result the call can have when the answering remotes complete in an unspecified order -/
+def collectionGetAnyOrder (md5 : Str → Str) (s : Script) : List Result :=
+  (perms s.order).map (fun o => collectionGet md5 { s with order := o })
+
 /-- Did the client have to give up (cancel its context) for the call to return? -/
 def needsClientCancel (md5 : Str → Str) (s : Script) : Bool :=
   if s.req.length = 27 then
